@@ -60,6 +60,18 @@ _REGISTER_TAIL = (
     "        return False\n"
 )
 
+_SEARCH_LOOP = (
+    "        for region in self.regions:\n"
+    "            if region.circuit_addr == circuit_addr:\n"
+    "                if seed_url and region.cap_urls.get(\"Seed\") != seed_url:\n"
+    "                    region.update_caps({\"Seed\": seed_url})\n"
+    "                if handle:\n"
+    "                    region.handle = handle\n"
+    "                return region\n"
+    "            if seed_url and region.cap_urls.get(\"Seed\") == seed_url:\n"
+    "                return region\n"
+)
+
 VARIANTS = [
     # ---- R1 filter loop
     {"name": "R1 kept events inserted at the head", "file": HEM, "expect": "C17.R1",
@@ -224,6 +236,41 @@ VARIANTS = [
             "            sim_handle = sim_block[\"Handle\"]\n",
      "new": "            info = msg.get_block(\"SimulatorInfo\")[0]\n            sim_addr = (info[\"IP\"], info[\"Port\"])\n"
             "            sim_handle = info[\"Handle\"]\n"},
+    # ---- round 5: declarative regressions
+    {"name": "R1 EQ handlers format with the upstream llsd package", "file": HEM, "expect": "C17.R1",
+     "old": "from hippolyzer.lib.base import llsd\n", "new": "import llsd\n"},
+    {"name": "P R1 hippolyzer llsd imported by its dotted name", "file": HEM, "expect": "silent",
+     "old": "from hippolyzer.lib.base import llsd\n", "new": "import hippolyzer.lib.base.llsd as llsd\n"},
+    {"name": "R1 Block's name parameter bindable by a wire key", "file": MSG, "expect": "C17.R1",
+     "old": "    def __init__(self, name, /, *, fill_missing=False, **kwargs):",
+     "new": "    def __init__(self, name, *, fill_missing=False, **kwargs):"},
+    {"name": "P R1 Block's positional-only parameter renamed", "file": MSG, "expect": "silent",
+     "old": "    def __init__(self, name, /, *, fill_missing=False, **kwargs):\n        self.name = name\n",
+     "new": "    def __init__(self, block_name, /, *, fill_missing=False, **kwargs):\n        self.name = block_name\n"},
+    {"name": "R4 generator search skips matches without a circuit", "file": STATE, "expect": "C17.R4",
+     "old": _SEARCH_LOOP,
+     "new": "        known = next((r for r in self.regions\n"
+            "                      if (r.circuit_addr == circuit_addr and r.circuit)\n"
+            "                      or (seed_url and r.cap_urls.get(\"Seed\") == seed_url)), None)\n"
+            "        if known is not None:\n"
+            "            if known.circuit_addr == circuit_addr:\n"
+            "                if seed_url and known.cap_urls.get(\"Seed\") != seed_url:\n"
+            "                    known.update_caps({\"Seed\": seed_url})\n"
+            "                if handle:\n"
+            "                    known.handle = handle\n"
+            "            return known\n"},
+    {"name": "P R4 generator search with a plain address disjunct", "file": STATE, "expect": "silent",
+     "old": _SEARCH_LOOP,
+     "new": "        known = next((r for r in self.regions\n"
+            "                      if r.circuit_addr == circuit_addr\n"
+            "                      or (seed_url and r.cap_urls.get(\"Seed\") == seed_url)), None)\n"
+            "        if known is not None:\n"
+            "            if known.circuit_addr == circuit_addr:\n"
+            "                if seed_url and known.cap_urls.get(\"Seed\") != seed_url:\n"
+            "                    known.update_caps({\"Seed\": seed_url})\n"
+            "                if handle:\n"
+            "                    known.handle = handle\n"
+            "            return known\n"},
     # ---- documented limit
     {"name": "X swallow on any truthy hook result instead of `is True` (value level)", "file": HEM, "expect": "miss",
      "old": "        if handle_event is True:\n", "new": "        if handle_event:\n"},
